@@ -478,7 +478,49 @@ pub fn run(out: &mut Out, thorough: bool, seed: u64, extra: &[String]) {
     }
 }
 
+/// Free-running threads (no scheduler installed: the OS interleaves, also INSIDE lock regions, which the token scheduler never does): several
+/// threads share one evaluator and apply Galois automorphisms to one NTT-form plaintext — first use of many different elements while other
+/// threads keep reading a cached one.  Every result must be byte for byte the sequential one; no thread may panic.  Nondeterministic coverage,
+/// deterministic verdict (the sequential bytes are unique), so it cannot raise an alarm on correct code.
+fn free_running(out: &mut Out, thorough: bool) {
+    use std::sync::atomic::{AtomicBool, AtomicUsize, Ordering};
+    for round in 0..(if thorough { 8 } else { 3 }) {
+        let n = if round % 2 == 0 { 1024usize } else { 256 };
+        let verdict = std::panic::catch_unwind(|| -> Result<usize, String> {
+            let mk = || { let p = EncryptionParameters::new(SchemeType::CKKS).set_poly_modulus_degree(n).set_coeff_modulus(&CoeffModulus::create(n, vec![40, 40, 40])); HeContext::new(p, true, SecurityLevel::None) };
+            let ctx_seq = mk(); let ev_seq = Evaluator::new(ctx_seq.clone());
+            let enc = CKKSEncoder::new(ctx_seq.clone());
+            let values: Vec<f64> = (0..n).map(|i| ((i * 37 + 11) % 1000) as f64 - 500.0).collect();
+            let plain = enc.encode_f64_polynomial_new(&values, None, (1u64 << 20) as f64);
+            let elts: Vec<usize> = (1..n).map(|k| 2 * k + 1).collect();
+            let reference: Vec<Vec<u64>> = elts.iter().map(|&e| ev_seq.apply_galois_plain_new(&plain, e).data().clone()).collect();
+            let ctx = mk(); let ev = Evaluator::new(ctx.clone());
+            if ev.apply_galois_plain_new(&plain, elts[0]).data() != &reference[0] { return Err("sequential warm-up differs".into()); }
+            let (stop, bad, done) = (AtomicBool::new(false), AtomicUsize::new(0), AtomicUsize::new(0));
+            let workers = 6usize;
+            let panicked = std::thread::scope(|s| {
+                let mut hs = vec![];
+                for _ in 0..2 { hs.push(s.spawn(|| { while !stop.load(Ordering::Relaxed) { if ev.apply_galois_plain_new(&plain, elts[0]).data() != &reference[0] { bad.fetch_add(1, Ordering::Relaxed); } } })); }
+                let mut ws = vec![];
+                for w in 0..workers { let (ev, plain, elts, reference, bad, done) = (&ev, &plain, &elts, &reference, &bad, &done);
+                    ws.push(s.spawn(move || { let m = elts.len(); for j in 0..m { let i = (j * (2 * w + 1) + w * 97) % m; if ev.apply_galois_plain_new(plain, elts[i]).data() != &reference[i] { bad.fetch_add(1, Ordering::Relaxed); } } done.fetch_add(1, Ordering::Relaxed); })); }
+                let mut p = 0; for h in ws { if h.join().is_err() { p += 1; } }
+                stop.store(true, Ordering::Relaxed);
+                for h in hs { if h.join().is_err() { p += 1; } }
+                p });
+            if panicked > 0 { return Err(format!("{} thread(s) panicked", panicked)); }
+            Ok(bad.load(Ordering::Relaxed)) });
+        match verdict {
+            Ok(Ok(0)) => out.raw(&format!("!OK free_running galois_plain n={} round={} # free-running", n, round)),
+            Ok(Ok(b)) => out.raw(&format!("!FAIL free_running galois_plain n={} round={} :: {} concurrent results differ from the sequential bytes # free-running", n, round, b)),
+            Ok(Err(m)) => out.raw(&format!("!FAIL free_running galois_plain n={} round={} :: {} # free-running", n, round, m)),
+            Err(_) => out.raw(&format!("!FAIL free_running galois_plain n={} round={} :: the run panicked # free-running", n, round)),
+        }
+    }
+}
+
 fn run_inner(out: &mut Out, thorough: bool, seed: u64, extra: &[String]) {
+    if extra.first().map(|s| s == "freerun").unwrap_or(false) { free_running(out, thorough); return; }
     let mut r = Rng::new(seed);
     let mut b = Budget { watchdog: Duration::from_secs(if thorough { 10 } else { 5 }), timeouts: 0 };
     let part = |p: &str| extra.is_empty() || extra[0] == "--case" || extra.iter().any(|e| e == p);
